@@ -253,7 +253,23 @@ def _cfgparser_hook(ex, a, st, node):
     return [Val(p, st)]
 
 
-_models.EXTRA_FN_MODELS[config._ConfigParser] = lambda ex, args, kwargs, st, node: _cfgparser_hook(ex, None, st, node)
+def _cfgparser_ctor(ex, args, kwargs, st, node):
+    """Call-site precondition of the assumed library view (A-lib): "a section is the dictionary of the strings as
+    written" describes configparser's DEFAULT dialect only. Any constructor option (inline_comment_prefixes,
+    delimiters, comment_prefixes, interpolation, allow_no_value, strict, converters ...) or another base class than
+    RawConfigParser changes what a written value means in setup.cfg but not in TOML, so the INI reader would stop
+    agreeing with the TOML reader (C18). The view may be assumed only for `_ConfigParser()` on the raw base."""
+    import configparser
+
+    default_dialect = not args and not kwargs and configparser.RawConfigParser in config._ConfigParser.__mro__ and not any(
+        k is not configparser.RawConfigParser and issubclass(k, configparser.RawConfigParser) and k is not config._ConfigParser for k in config._ConfigParser.__mro__
+    )
+    overridden = sorted(n for n in vars(config._ConfigParser) if not n.startswith("__") and not n.startswith("_abc_") and n != "optionxform")
+    ex.side_obligations.append(("C18._ConfigParser.constructed_in_the_default_dialect_of_the_raw_parser", list(st.pc), bool(default_dialect and not overridden), ("C18",)))
+    return _cfgparser_hook(ex, None, st, node)
+
+
+_models.EXTRA_FN_MODELS[config._ConfigParser] = _cfgparser_ctor
 c = REG.new("bumpver.config._ConfigParser")
 c.callee_hook = _cfgparser_hook
 c.trusted = "A-lib: configparser.RawConfigParser with case-preserving option names: sections are dictionaries of strings; executed for real in checks/c18.py"
